@@ -14,7 +14,7 @@ def main(argv):
     out = []
     for case in cases:
         rec, _, _ = c08._run_world(case["world"], case["steps"], case["final"], argv[2] == "interleaved", None)
-        out.append(None if rec is None else [rec[0], repr(rec[1]) if len(rec) > 1 else None, repr(rec[2]) if len(rec) > 2 else None])
+        out.append(None if rec is None else [rec[0]] + [repr(x) for x in rec[1:]])
     json.dump(out, sys.stdout)
 
 
